@@ -718,8 +718,8 @@ func runC10(ctx *Ctx) {
 				combos := (1 << (4 * np)) * len(varBits)
 				total := combos * len(ll)
 				sample := 0
-				if total > ctx.N(30000, 400000) {
-					sample = ctx.N(30000, 400000) / combos
+				if total > ctx.N(20000, 400000) {
+					sample = ctx.N(20000, 400000) / combos
 					if sample < 2 {
 						sample = 2
 					}
@@ -826,6 +826,7 @@ func runC10(ctx *Ctx) {
 	scope = append(scope, "Proxy / Params / VarParam / WithNewDescriptions (every description count 0..len(params)+2) on every 5th of the cases that also run ReturnTypeForValues / ReturnType")
 	ctx.res.Exhaustive = true
 	ctx.res.Scope = strings.Join(scope, "; ")
+	c10D10(ctx) // wrappers x entry points (c10_d10.go)
 
 	// (C) random specs, arguments, callbacks
 	to := TyOpts{Dyn: true, Capsule: true}
